@@ -401,6 +401,25 @@ static void apply_fault(slot_t *s, const char *kind, long a, long b, int src) {
 				carry = v >> 8;
 			}
 		}
+	} else if (!strcmp(kind, "negc")) {
+		/* the field-sized window with index a := p - window (one coordinate negated: the conjugate of an
+		 * extension-field coordinate, the other root of y^2, ...) */
+		if (len >= RLC_FP_BYTES) {
+			size_t lead = len % RLC_FP_BYTES ? 1 : 0;
+			size_t nwin = (len - lead) / RLC_FP_BYTES;
+			size_t off = lead + ((size_t)a % (nwin ? nwin : 1)) * RLC_FP_BYTES;
+			bn_t p, c;
+			bn_null(p); bn_null(c); bn_new(p); bn_new(c);
+			p->used = RLC_FP_DIGS;
+			dv_copy(p->dp, fp_prime_get(), RLC_FP_DIGS);
+			bn_trim(p);
+			bn_read_bin(c, s->p + off, RLC_FP_BYTES);
+			if (!bn_is_zero(c) && bn_cmp(c, p) == RLC_LT) {
+				bn_sub(c, p, c);
+				bn_write_bin(s->p + off, RLC_FP_BYTES, c);
+			}
+			bn_free(p); bn_free(c);
+		}
 	} else if (!strcmp(kind, "winff")) {
 		size_t unit = (!strcmp(s->type, "eb") || !strcmp(s->type, "fb")) ? RLC_FB_BYTES : RLC_FP_BYTES;
 		if (len >= unit) {
